@@ -349,6 +349,8 @@ def run_check(prop, tier, seed):
         if path is None:
             harness.append({"i": r["i"], "nondeterministic": note})
             continue
+        if isinstance(v[2], dict):
+            v[2].pop("_replan", None)
         reported.append({"clause": clause, "count": len(unknown), "replay": path, "first_index": r["i"],
                          "data": v[2]})
         print(f"VIOLATION property={prop} replay={path}")
@@ -371,7 +373,12 @@ def run_check(prop, tier, seed):
 
 
 def confirm_and_minimise(overlay, mod, prop, clause, r, v, replay_dir, tier):
-    plan = r.get("plan")
+    plan = None
+    if isinstance(v[2], dict):
+        # an engine that ran several variants of one plan names the failing variant
+        plan = v[2].pop("_replan", None)
+    if plan is None:
+        plan = r.get("plan")
     if plan is None:
         plan = mod.gen_plan(int(os.environ.get("VERIF_SEED", "0")), r["i"], tier)
     w = Worker(overlay, r["impl"], r["hashseed"], 999)
@@ -406,19 +413,23 @@ def write_evidence(prop, tier, seed, mod, results, reported, known_lines, harnes
     virt = 0.0
     impls = {}
     samples = []
+    nsub = 0
     for r in results:
         for k, n in (r.get("faults") or {}).items():
             faults[k] = faults.get(k, 0) + n
         for k, n in (r.get("probes") or {}).items():
             probes[k] = probes.get(k, 0) + n
-        if r.get("nontrivial") and r.get("sig"):
+        if r.get("nontrivial") and r.get("subsigs"):
+            sigs.update(r["subsigs"])
+        elif r.get("nontrivial") and r.get("sig"):
             sigs.add(r["sig"])
+        nsub += r.get("subruns", 1)
         virt += r.get("virt") or 0.0
         impls[r.get("impl")] = impls.get(r.get("impl"), 0) + 1
         if r.get("plan") is not None and len(samples) < 3:
             samples.append({"index": r["i"], "plan": r["plan"], "digest": r.get("digest"),
                             "faults_fired": r.get("faults")})
-    n = len(results)
+    n = nsub
     if len(samples) < 2:
         # sample plans are regenerated (pure function of seed and index)
         for r in results[:3]:
@@ -441,6 +452,7 @@ def write_evidence(prop, tier, seed, mod, results, reported, known_lines, harnes
                 "fault firings and connection closes, times removed)")),
             "samples": samples[:3],
             "target_runs": target,
+            "plans_executed": len(results),
             "runs_per_hour": round(n / wall * 3600) if wall > 0 else 0,
             "simulated_seconds": round(virt, 1),
             "fault_kinds_fired": faults,
